@@ -632,8 +632,14 @@ where
 
 impl<I: Integer, const N: usize> Hash for Bvf<I, N> {
     fn hash<H: Hasher>(&self, state: &mut H) {
-        self.length.hash(state);
-        for i in 0..Self::capacity_from_bit_len(self.length) {
+        // Eq ignores the length (it compares values), so Hash must too: hash the significant
+        // words only.
+        let mut n = Self::capacity_from_bit_len(self.length);
+        while n > 0 && self.data[n - 1] == I::ZERO {
+            n -= 1;
+        }
+        n.hash(state);
+        for i in 0..n {
             self.data[i].hash(state);
         }
     }
